@@ -187,3 +187,37 @@ package node
 //@   modifies nothing
 //@   loop 1 preserves old
 //@   loop 2 preserves old
+//@
+//@ // ---- rewards of graded blocks (C11 C04) -----------------------------------------------------------
+//@ spec func payOPR(b map[factom.FAAddress]map[int]int, ws []*grader.GradingOPR, n int) map[factom.FAAddress]map[int]int =
+//@     n <= 0 ? b : (validFA(oprAddr(ws[n - 1].OPR)) ? credit(payOPR(b, ws, n - 1), faAddr(oprAddr(ws[n - 1].OPR)), fat2.PTickerPEG, oprPayout(ws[n - 1])) : payOPR(b, ws, n - 1))
+//@ spec func paidOPR(ws []*grader.GradingOPR, n int) int =
+//@     n <= 0 ? 0 : paidOPR(ws, n - 1) + (validFA(oprAddr(ws[n - 1].OPR)) ? oprPayout(ws[n - 1]) : 0)
+//@ spec func paySPR(b map[factom.FAAddress]map[int]int, ws []*graderStake.GradingSPR, n int) map[factom.FAAddress]map[int]int =
+//@     n <= 0 ? b : (validFA(sprAddr(ws[n - 1].SPR)) ? credit(paySPR(b, ws, n - 1), faAddr(sprAddr(ws[n - 1].SPR)), fat2.PTickerPEG, sprPayout(ws[n - 1])) : paySPR(b, ws, n - 1))
+//@ spec func paidSPR(ws []*graderStake.GradingSPR, n int) int =
+//@     n <= 0 ? 0 : paidSPR(ws, n - 1) + (validFA(sprAddr(ws[n - 1].SPR)) ? sprPayout(ws[n - 1]) : 0)
+//@
+//@ func (*Pegnetd).ApplyGradedOPRBlock
+//@   props C11 C04
+//@   requires @wellformed d.Pegnet != nil && gradedBlock != nil
+//@   modifies Lbal, Lsupply
+//@   ensures @winners_paid_exactly err == nil ==> Lbal == payOPR(old(Lbal), oprWinners(gradedBlock), len(oprWinners(gradedBlock)))
+//@   ensures @supply err == nil ==> Lsupply == upd(old(Lsupply), fat2.PTickerPEG, old(Lsupply)[fat2.PTickerPEG] + paidOPR(oprWinners(gradedBlock), len(oprWinners(gradedBlock))))
+//@   ensures @error_is_not_a_reject_code !isRejectErr(err)
+//@   loop 1 invariant @range 0 <= iter && iter <= len(winners) && winners == oprWinners(gradedBlock)
+//@   loop 1 invariant @paid Lbal == payOPR(old(Lbal), oprWinners(gradedBlock), iter)
+//@   loop 1 invariant @supply Lsupply == upd(old(Lsupply), fat2.PTickerPEG, old(Lsupply)[fat2.PTickerPEG] + paidOPR(oprWinners(gradedBlock), iter))
+//@   loop 1 preserves old
+//@
+//@ func (*Pegnetd).ApplyGradedSPRBlock
+//@   props C11 C04
+//@   requires @wellformed d.Pegnet != nil && gradedSPRBlock != nil
+//@   modifies Lbal, Lsupply
+//@   ensures @winners_paid_exactly err == nil ==> Lbal == paySPR(old(Lbal), sprWinners(gradedSPRBlock), len(sprWinners(gradedSPRBlock)))
+//@   ensures @supply err == nil ==> Lsupply == upd(old(Lsupply), fat2.PTickerPEG, old(Lsupply)[fat2.PTickerPEG] + paidSPR(sprWinners(gradedSPRBlock), len(sprWinners(gradedSPRBlock))))
+//@   ensures @error_is_not_a_reject_code !isRejectErr(err)
+//@   loop 1 invariant @range 0 <= iter && iter <= len(winners) && winners == sprWinners(gradedSPRBlock)
+//@   loop 1 invariant @paid Lbal == paySPR(old(Lbal), sprWinners(gradedSPRBlock), iter)
+//@   loop 1 invariant @supply Lsupply == upd(old(Lsupply), fat2.PTickerPEG, old(Lsupply)[fat2.PTickerPEG] + paidSPR(sprWinners(gradedSPRBlock), iter))
+//@   loop 1 preserves old
